@@ -1,7 +1,7 @@
 SPECIFICATION FullSpec
 CONSTANTS
-  Events <- MCEvents
-  RegEvents <- MCReg
+  Events <- MCEventsE
+  RegEvents <- MCRegE
   Prios <- MCPrios
   Spawns <- MCSpawns
   MaxListeners = 8
